@@ -147,3 +147,22 @@ Theorem C02_fragment_never_stuck :
   nstuck (dquery ev q) -> nstuck (run_event (prog_q bk q n0) ms ev).
 Proof. exact frag_never_stuck. Qed.
 Print Assumptions C02_fragment_never_stuck.
+
+(* ---------- the rendered files: brackets outside comments and literals nest ---------- *)
+(* Every rendered C++ file of every generated package is scanned by Balance.scan (comments, string and character literals are
+   skipped) and its brackets are checked with a stack.  The stack check accepts exactly the words of the bracket grammar
+   D ::= empty | open_k D close_k D, for every list of brackets - so a file the check accepts has properly nested ( ) [ ] { },
+   whatever inject_code blocks, query code and names went into it. *)
+From FV Require Import Model.Balance Proofs.BalanceProofs.
+Theorem C02_stack_check_is_the_bracket_grammar : forall l : list br, balanced l = true <-> D l.
+Proof. exact balanced_iff_D. Qed.
+Print Assumptions C02_stack_check_is_the_bracket_grammar.
+Theorem C02_accepted_text_is_well_nested : forall s : string, text_balanced s = Some true -> exists l, scan (Code false) s = Some l /\ D l.
+Proof. exact text_balanced_sound. Qed.
+Print Assumptions C02_accepted_text_is_well_nested.
+Example C02_balance_examples :
+  text_balanced "f(a[1]) { if (x) { g(""}""); } /* ) */ } // (" = Some true /\
+  text_balanced "f(a) { if (x) { }" = Some false /\
+  text_balanced "f(a]) " = Some false /\
+  text_balanced "s = ""abc" = None.
+Proof. vm_compute. repeat split; reflexivity. Qed.
